@@ -251,6 +251,38 @@ CHECKS.update({
         'DESIGN.md section 4 C19'),
 })
 
+CHECKS.update({
+    'C08': (
+        'Coq proof (crop box tight and containing every selected cell; selected value kept at the shifted index for every other index; unselected cell = fill; unmaskable cropped only; mesh rows = rows of the kept elements in order) + vm_compute correspondence + netCDF clip flows',
+        'Theorems C08_* prove for every mask, every variable (any extra dimensions) and every fill that the crop box computed '
+        'as coded contains every selected cell and touches one on each side, that a selected cell keeps its value at its index '
+        'minus the crop offset, that an unselected cell of the crop holds the fill, that a variable without fill is cropped '
+        'only, and for meshes that the clipped rows are the rows of the kept elements in increasing order.  Per run datasets '
+        'of every convention are written to netCDF and reopened (some with mask_and_scale=False), clipped with generated '
+        'geometries and buffers directly or with a mask saved, reloaded and applied to a second dataset with other data; every '
+        'variable (float, int, int with _FillValue incl. 0, int with missing_value, any grid kind, extra dimensions in any '
+        'position, non-spatial, coordinates, attributes) is compared with what the property demands, computed independently '
+        'from the mask, and the crop plan / kept elements are compared with the model.',
+        'Trusted: Coq kernel; model Clip.v.  PARTIAL: the netCDF write / open_mfdataset round trip inside apply_clip_mask is '
+        'not modelled (values are compared after it, under xarray\'s default decoding).',
+        'DESIGN.md section 4 C08'),
+    'C09': (
+        'Coq proof (updated connectivity rows = kept rows entrywise renumbered; references in range; renumbered node keeps its coordinates hence kept faces keep their polygon; dropped element has no new index) + vm_compute correspondence + clip / save / reopen flows',
+        'Theorems C09_* prove that the rows of an updated connectivity table are the rows of the kept elements in order with '
+        'every entry mapped through the column table, that every entry is a surviving element under the new numbering or '
+        'fill, that a kept node renumbered through the table still has its coordinates (so each selected face has exactly '
+        'its original polygon) and that a dropped element gets no new index.  Per run the clips of C08 are inspected: same '
+        'convention class, also after saving and reopening; polygons of selected cells equal to the originals and no new '
+        'polygon where geometry is stored explicitly; every connectivity variable of the input present, equal to the model, '
+        'consistent with the others (relation of C10), same integer type and start_index in the saved file; '
+        'select_variables on subsets of the data variables (bounds as plain variables and as coordinates) leaves polygons '
+        'and convention identical.',
+        'Trusted: Coq kernel; models Clip.v / UMask.v / Topology.v.  PARTIAL: save / reopen and convention detection of the '
+        'result are established per run only; polygons are compared only where geometry is stored explicitly (bounds, nodes) '
+        'as the property states.',
+        'DESIGN.md section 4 C09'),
+})
+
 NOT_YET = 'check not built yet in this session (work in progress; the design in DESIGN.md section 4 applies)'
 
 
